@@ -90,4 +90,24 @@ TEXTS.update({
         'ref': 'DESIGN.md 4 C13; 3 BND3 OUT5 OUT6 BND6 TAB13',
     },
 })
+TEXTS.update({
+    'C06': {
+        'level': "Decides the 'sibling chain stays consistent', 'refused call leaves containers unchanged' and 'NULL argument refused' clauses as structural obligations on every mutator: tail link restored on every path through a child store (CFG must-pass with null/release exemptions), completeness of each list-edit idiom, no refusal reachable after a link store, NULL tests dominating parameter dereferences. The list/map model equivalence over histories is not decided.",
+        'note': COMMON_NOTE + " Not decided: which element ends up where over arbitrary edit histories; lookup semantics.",
+        'technique': 'static analysis: path-sensitive store pairing on the CFG, idiom completeness matching, dominance of NULL tests, reachability of refusals after stores',
+        'ref': 'DESIGN.md 4 C06; 3 LST1-LST4 TAB7',
+    },
+    'C11': {
+        'level': "Decides the no-sharing / reference-cleared / bounded-recursion clauses: field-by-field census of the duplicator against the struct definition, provenance of every pointer stored into the copy (fresh-allocation closure), mask shape of the type copy, depth gate with depth+1 handed down, tail link of the copied chain.",
+        'note': COMMON_NOTE + " Not decided: equality/print identity as values; later edit histories.",
+        'technique': 'static analysis: field-store census vs struct layout, pointer provenance, recursion-gate check',
+        'ref': 'DESIGN.md 4 C11; 3 TAB14 TAB1 LST1',
+    },
+    'C12': {
+        'level': "Decides purity (arguments never modified: transitive store census), the structural parts of the comparison (array length agreement by nullness dataflow, bidirectional member lookup, lookup and recursion results honoured, NULL payloads refused before strcmp), masked kind comparison and flag propagation. Numeric tolerance is not decided.",
+        'note': COMMON_NOTE + " Not decided: compare_double semantics (incl. the infinity case named in the property), reflexivity/symmetry.",
+        'technique': 'static analysis: transitive purity census, nullness dataflow on the array arm, dominance/reachability checks on the object arm, mask-shape checks',
+        'ref': 'DESIGN.md 4 C12; 3 EFF6 TAB3 TAB11',
+    },
+})
 NOT_APPLICABLE = {}
